@@ -42,6 +42,23 @@ def random_api_zone(r):
     apex = [label() for _ in range(r.choice([0, 0, 1, 2]))] + [[]]
     auth = r.random() < 0.7 or len(apex) > 1
     names = [[label() for _ in range(r.randint(1, 3))] + apex for _ in range(4)] + [apex, [label(), []]]
+    if r.random() < 0.25:
+        # owner labels made of digits only (reverse zones: "1", "42"), one label below the apex and deeper
+        names[0] = [[ord(c) for c in r.choice(["1", "42", "300", "0"])]] + apex
+        names[1] = [[ord("7")], [ord(c) for c in "10"]] + apex
+    if r.random() < 0.15:
+        # names that fill the 255 octets of the wire form exactly (254 characters when written with the final dot)
+        def fill(suffix):
+            used = 1 + sum(len(l) + 1 for l in suffix if l)
+            out = []
+            while 255 - used > 64:
+                out.append([97 + r.randrange(26)] * 63)
+                used += 64
+            if 255 - used >= 2:
+                out.append([98 + r.randrange(20)] * (255 - used - 1))
+            return out + suffix
+        names[2] = fill(apex)
+        names[5] = fill([[]])
     recs = []
     for _ in range(r.randint(1, 6)):
         t = r.choice(["A", "AAAA", "TXT", "HINFO", "NULL", "WKS", "CNAME", "NS", "PTR", "MX", "SRV", "MINFO", "MB", "MG",
